@@ -1035,3 +1035,81 @@ func ruleC13CleanUp(cx *Ctx) {
 		cx.R.Check(ok, rule, funcName(pc), "janitor reaches maintenance", cx.P.Pos(pc.Pos()), "the periodic clean-up goroutine calls a function that runs maintenance")
 	}
 }
+
+func init() {
+	alsoUnder(ruleC04Width, "C04", "C07")
+	alsoUnder(ruleC13NoDrop, "C12")
+	alsoUnder(ruleEvict, "C14")
+}
+
+// ---- C04.width ----
+// The size bound is kept in 64 bits: the policy's totals and limits (maximum, weightedSize, the window / protected
+// shares) are never narrowed to a 32-bit or smaller integer. A comparison made "in the width of a weight"
+// (n.Weight() > uint32(p.maximum)) truncates every maximum of 2^32 or more - ordinary entries then count as oversized.
+func ruleC04Width(cx *Ctx) {
+	const rule = "C04.width"
+	cx.R.Rule(rule, 1, "no 64-bit field of the eviction policy (maximum, weightedSize, windowMaximum, mainProtectedMaximum, the per-queue totals) is converted to an integer type narrower than 64 bits anywhere in the module: weights are widened for a comparison, limits are never narrowed")
+	_, st := cx.P.Struct("", "policy")
+	if st == nil {
+		cx.R.Undecided(rule, "policy", "anchor", "-", "type policy not found")
+		return
+	}
+	wide := map[*types.Var]bool{}
+	for i := 0; i < st.NumFields(); i++ {
+		f := st.Field(i)
+		if b, ok := f.Type().Underlying().(*types.Basic); ok && (b.Kind() == types.Uint64 || b.Kind() == types.Int64) {
+			wide[f.Origin()] = true
+		}
+	}
+	narrow := func(t types.Type) bool {
+		b, ok := t.Underlying().(*types.Basic)
+		if !ok {
+			return false
+		}
+		switch b.Kind() {
+		case types.Int8, types.Int16, types.Int32, types.Uint8, types.Uint16, types.Uint32:
+			return true
+		}
+		return false
+	}
+	n := 0
+	for _, fn := range cx.P.ModuleFuncs() {
+		allInstrs(fn, func(in ssa.Instruction) {
+			cv, ok := in.(*ssa.Convert)
+			if !ok || !narrow(cv.Type()) {
+				return
+			}
+			// the operand (through arithmetic) is a load of a wide policy field
+			var from func(v ssa.Value, d int) *types.Var
+			from = func(v ssa.Value, d int) *types.Var {
+				if d > 4 {
+					return nil
+				}
+				if f := fieldOf(v); f != nil && wide[f.Origin()] && ownerName(fieldOwnerOfValue(v)) == "policy" {
+					return f
+				}
+				switch x := v.(type) {
+				case *ssa.BinOp:
+					if f := from(x.X, d+1); f != nil {
+						return f
+					}
+					return from(x.Y, d+1)
+				case *ssa.Phi:
+					for _, e := range x.Edges {
+						if f := from(e, d+1); f != nil {
+							return f
+						}
+					}
+				}
+				return nil
+			}
+			if f := from(cv.X, 0); f != nil {
+				n++
+				cx.R.Violate(rule, funcName(fn), "narrowing of "+fname(f), cx.P.where(in), "NOT SATISFIED: policy."+fname(f)+" is converted to "+cv.Type().String()+": limits and totals of the size bound stay 64 bits wide")
+			}
+		})
+	}
+	if n == 0 {
+		cx.R.OK(rule, "policy", "no narrowing conversion", "-", fmt.Sprintf("%d 64-bit fields, none narrowed", len(wide)))
+	}
+}
